@@ -154,11 +154,16 @@ static QDomElement dom(const QString &xml)
 
 // symbolic operation chosen by the generators; resolved against the live objects when applied
 struct Sym {
-    enum Kind { Conn, Drop, Clean, Fail, Res, Err, Iq, Pres } kind;
+    enum Kind { Conn, Drop, Clean, Fail, Res, Err, Iq, Pres, Api, SetJid } kind;
     int sm = 0; bool auth = true;          // Conn
-    int which = 0;                         // Res/Err: 0 = newest request issued, -1 = unknown id, n>0 = request #n
-    std::string from, id, type, status;    // Res/Err/Iq/Pres (type: iq type or presence type)
+    int which = 0;                         // Res/Err: 0 = newest roster GET sent, -2 = newest roster SET sent by a mutator,
+                                           //          -1 = an id never used, n>0 = request #n (gets and sets are numbered together)
+    std::string from, id, type, status;    // Res/Err/Iq/Pres (type: iq type or presence type); Api: type = call, from = jid, status = name
     std::vector<Item> items;
+    std::vector<std::string> groups;       // Api add
+    bool tracked = false;                  // Api: task-returning variant (addRosterItem, subscribeTo, ...)
+    // wire variants that must not matter (same op line): from='' instead of no from; result without <query/>; ver attribute
+    bool emptyFromAttr = false, noQuery = false, ver = false;
 };
 
 // ---------------------------------------------------------------------------------------------
@@ -199,14 +204,15 @@ struct Env {
     std::unique_ptr<TestClient> client;
     QXmppRosterManager *mgr = nullptr;
     std::vector<std::string> sigs;
-    std::map<int, QString> reqId;      // roster request number -> stanza id
-    int issued = 0;
+    std::map<int, QString> reqId;      // number of a roster IQ sent by the client (get or set, in order) -> stanza id
+    int issued = 0, lastGet = 0, lastSet = 0;
+    std::string ownNow = OWN_BARE.toStdString();   // configuration().jidBare() as the oracle tracks it
     bool open = false;
     std::set<std::string> knownBare;
     std::string history;               // replay text
     // oracle bookkeeping
     std::vector<HEv> hist;
-    std::set<int> chainReqs;           // requests issued since the last fresh connect and not yet answered
+    std::map<int, std::string> chainReqs;   // roster GETs sent since the last fresh connect and not yet answered -> bare JID configured then
     bool noSmDiscInChain = false;
     bool lastSessionResumable = false;
 
@@ -293,14 +299,33 @@ struct Env {
             QDomDocument doc;
             if (!doc.setContent(text, true)) continue;   // stream header and other non-documents
             auto el = doc.documentElement();
+            if (el.tagName() == u"presence" && el.hasAttribute("type")) {   // subscription management (initial presence has no type)
+                out.push_back("p:" + el.attribute("type").toStdString() + ">" + el.attribute("to").toStdString());
+                continue;
+            }
             if (el.tagName() != u"iq") continue;
             const auto type = el.attribute("type");
             const auto id = el.attribute("id");
             auto child = el.firstChildElement();
-            if (type == u"get" && child.tagName() == u"query" && child.namespaceURI() == u"jabber:iq:roster") {
+            const bool rosterQuery = child.tagName() == u"query" && child.namespaceURI() == u"jabber:iq:roster";
+            if (type == u"get" && rosterQuery) {
                 reqId[++issued] = id;
-                chainReqs.insert(issued);
+                lastGet = issued;
+                chainReqs[issued] = ownNow;
                 out.push_back("get#" + std::to_string(issued));
+            } else if (type == u"set" && rosterQuery) {
+                reqId[++issued] = id;
+                lastSet = issued;
+                std::string it;
+                for (auto ie = child.firstChildElement("item"); !ie.isNull(); ie = ie.nextSiblingElement("item")) {
+                    std::set<std::string> gs;
+                    for (auto g = ie.firstChildElement("group"); !g.isNull(); g = g.nextSiblingElement("group")) gs.insert(g.text().toStdString());
+                    std::string gj;
+                    for (auto &g : gs) { if (!gj.empty()) gj += ";"; gj += g; }
+                    const auto sub = ie.attribute("subscription").toStdString();
+                    it += ":" + ie.attribute("jid").toStdString() + "|" + ie.attribute("name").toStdString() + "|" + (sub.empty() ? "-" : sub) + "|" + gj;
+                }
+                out.push_back("set#" + std::to_string(issued) + it);
             } else if (type == u"result") {
                 out.push_back("result=" + id.toStdString() + ">" + el.attribute("to").toStdString());
                 resultIds.push_back(id.toStdString());
@@ -330,6 +355,7 @@ struct Env {
         case Sym::Conn: return !open && (s.sm != 3 || (client->smCanResume() && lastSessionResumable));
         case Sym::Drop: case Sym::Clean: return open;
         case Sym::Fail: return !open;
+        case Sym::SetJid: return true;
         default: return open;
         }
     }
@@ -360,6 +386,7 @@ struct Env {
         std::string line;
         const std::string before = showView(actualView()) + "#" + showPres(actualPres()) + "#" + (mgr->isRosterReceived() ? "1" : "0");
         bool foreignRosterIq = false, authorisedSet = false, fullAccepted = false, freshConn = false;
+        bool mustNotChange = false; const char *mustNotChangeKey = "";
         std::string iqId;
         switch (s.kind) {
         case Sym::Conn: {
@@ -382,23 +409,27 @@ struct Env {
             break;
         }
         case Sym::Res: case Sym::Err: {
-            int k = s.which == 0 ? issued : (s.which < 0 ? 0 : s.which);
+            int k = s.which == 0 ? lastGet : (s.which == -2 ? lastSet : (s.which < 0 ? 0 : s.which));
             if (k > issued) k = 0;
             const QString id = k > 0 ? reqId[k] : QStringLiteral("no-such-request");
             const bool ok = s.kind == Sym::Res;
             line = std::string(ok ? "res " : "err ") + std::to_string(k) + " " + enc(s.from) + (ok ? " " + itemsTok(s.items) : "");
             QString xml = "<iq xmlns='jabber:client' id='" + id + "' type='" + (ok ? "result" : "error") + "'";
             if (!s.from.empty()) xml += " from='" + xmlEsc(s.from) + "'";
+            else if (s.emptyFromAttr) xml += " from=''";
             xml += " to='" + OWN_FULL + "'>";
-            if (ok) xml += "<query xmlns='jabber:iq:roster'>" + itemsXml(s.items) + "</query>";
+            if (ok && !(s.noQuery && s.items.empty())) xml += QString("<query xmlns='jabber:iq:roster'") + (s.ver ? " ver='v42'" : "") + ">" + itemsXml(s.items) + "</query>";
             else xml += "<error type='cancel'><item-not-found xmlns='urn:ietf:params:xml:ns:xmpp-stanzas'/></error>";
             xml += "</iq>";
             // oracle: an answer counts iff it answers an unanswered roster request of this session chain and comes
             // from the server (no from) or the account's bare JID
-            if (chainReqs.count(k) && (s.from.empty() || s.from == OWN_BARE.toStdString())) {
-                chainReqs.erase(k);
+            // from the server (no from) or the account's bare JID as configured when the request was sent; anything else —
+            // third party, own full JID, unknown id, an id already answered, the id of a mutator's set — is a forgery
+            auto cr = chainReqs.find(k);
+            if (cr != chainReqs.end() && (s.from.empty() || s.from == cr->second)) {
+                chainReqs.erase(cr);
                 if (ok) { fullAccepted = true; HEv e { HEv::Full }; e.items = s.items; hist.push_back(e); }
-            }
+            } else { mustNotChange = true; mustNotChangeKey = "C12:forged-result-changed-view"; }
             client->receive(dom(xml));
             break;
         }
@@ -407,12 +438,14 @@ struct Env {
             QString xml = "<iq xmlns='jabber:client' type='" + QString::fromStdString(s.type) + "'";
             if (!s.id.empty()) xml += " id='" + xmlEsc(s.id) + "'";
             if (!s.from.empty()) xml += " from='" + xmlEsc(s.from) + "'";
-            xml += "><query xmlns='jabber:iq:roster'>" + itemsXml(s.items) + "</query></iq>";
-            const std::string own = OWN_BARE.toStdString();
+            else if (s.emptyFromAttr) xml += " from=''";
+            xml += QString("><query xmlns='jabber:iq:roster'") + (s.ver ? " ver='v42'" : "") + ">" + itemsXml(s.items) + "</query></iq>";
+            const std::string own = ownNow;
             const bool authorised = s.from.empty() || s.from == own || s.from.compare(0, own.size() + 1, own + "/") == 0;
             iqId = s.id;
             if (!authorised) foreignRosterIq = true;
             else if (s.type == "set") { authorisedSet = true; HEv e { HEv::Push }; e.items = s.items; hist.push_back(e); }
+            else { mustNotChange = true; mustNotChangeKey = "C12:non-set-roster-iq-changed-view"; }
             client->receive(dom(xml));
             break;
         }
@@ -433,6 +466,38 @@ struct Env {
             client->receive(dom(xml));
             break;
         }
+        case Sym::Api: {
+            const QString j = QString::fromStdString(s.from), n = QString::fromStdString(s.status);
+            line = std::string("api ") + (s.tracked ? "t " : "u ") + s.type + " " + enc(s.from);
+            mustNotChange = true; mustNotChangeKey = "C12:api-changed-view";
+            if (s.type == "add") {
+                std::string g; QSet<QString> gs;
+                for (auto &x : s.groups) { if (!g.empty()) g += ";"; g += x; gs.insert(QString::fromStdString(x)); }
+                line += " " + enc(s.status) + " " + (g.empty() ? "-" : g);
+                if (s.tracked) mgr->addRosterItem(j, n, gs); else mgr->addItem(j, n, gs);
+            } else if (s.type == "rm") {
+                if (s.tracked) mgr->removeRosterItem(j); else mgr->removeItem(j);
+            } else if (s.type == "ren") {
+                line += " " + enc(s.status);
+                if (s.tracked) mgr->renameRosterItem(j, n); else mgr->renameItem(j, n);
+            } else if (s.type == "sub") {
+                if (s.tracked) mgr->subscribeTo(j); else mgr->subscribe(j);
+            } else if (s.type == "unsub") {
+                if (s.tracked) mgr->unsubscribeFrom(j); else mgr->unsubscribe(j);
+            } else if (s.type == "acc") {
+                mgr->acceptSubscription(j);
+            } else {
+                mgr->refuseSubscription(j);
+            }
+            break;
+        }
+        case Sym::SetJid: {
+            client->configuration().setJid(QString::fromStdString(s.from));
+            ownNow = client->configuration().jidBare().toStdString();
+            line = "setjid " + enc(ownNow);
+            mustNotChange = true; mustNotChangeKey = "C12:setjid-changed-view";
+            break;
+        }
         }
         client->ackAll();
         std::vector<std::string> resultIds;
@@ -447,6 +512,9 @@ struct Env {
             if (before != after || !sigs.empty()) oracleFail("C12:foreign-push-changed-view", history);
             else if (acked) oracleFail("C12:foreign-push-acknowledged", history);
             else oraclePass()++;
+        }
+        if (mustNotChange) {
+            if (before != after || !sigs.empty()) oracleFail(mustNotChangeKey, history); else oraclePass()++;
         }
         if (authorisedSet) {
             long n = std::count(resultIds.begin(), resultIds.end(), iqId);
@@ -503,6 +571,7 @@ static bool simStep(SimState &st, const Sym &s)
     case Sym::Drop: if (!st.open) return false; st.open = false; return true;
     case Sym::Clean: if (!st.open) return false; st.open = false; st.canResume = false; return true;
     case Sym::Fail: return !st.open;
+    case Sym::SetJid: return true;
     default: return st.open;
     }
 }
@@ -533,6 +602,8 @@ static Sym simple(Sym::Kind k) { Sym s; s.kind = k; return s; }
 static Sym res(int which, const std::string &from, std::vector<Item> items) { Sym s; s.kind = Sym::Res; s.which = which; s.from = from; s.items = std::move(items); return s; }
 static Sym err(int which, const std::string &from) { Sym s; s.kind = Sym::Err; s.which = which; s.from = from; return s; }
 static Sym iq(const std::string &type, const std::string &from, const std::string &id, std::vector<Item> items) { Sym s; s.kind = Sym::Iq; s.type = type; s.from = from; s.id = id; s.items = std::move(items); return s; }
+static Sym api(const std::string &call, bool tracked, const std::string &jid, const std::string &name = "", std::vector<std::string> groups = {}) { Sym s; s.kind = Sym::Api; s.type = call; s.tracked = tracked; s.from = jid; s.status = name; s.groups = std::move(groups); return s; }
+static Sym setjid(const std::string &full) { Sym s; s.kind = Sym::SetJid; s.from = full; return s; }
 static Sym pres(const std::string &from, const std::string &type, const std::string &status) { Sym s; s.kind = Sym::Pres; s.from = from; s.type = type; s.status = status; return s; }
 
 int main(int argc, char **argv)
@@ -559,6 +630,17 @@ int main(int argc, char **argv)
     // stale answer from the previous session after a fresh connect
     runSeq({ conn(1), simple(Sym::Drop), conn(1), res(1, "", { { A, "old", "both", {} } }), res(2, "", { { B, "new", "both", {} } }) }, true);
 
+    // forged / stray / repeated roster results: third party with the right id, own full JID, unknown id, the genuine answer,
+    // the same id again, an unsolicited roster result from the server, a roster payload answering a mutator's set
+    runSeq({ conn(0), res(0, STRANGER, { { B, "evil", "both", {} } }), res(0, ownFull, { { B, "evil", "both", {} } }),
+             res(-1, "", { { B, "evil", "both", {} } }), res(0, "", { { A, "Alice", "both", {} } }), res(0, "", { { B, "evil", "both", {} } }),
+             res(1, STRANGER, {}), iq("result", "", "x1", { { B, "evil", "both", {} } }),
+             api("rm", true, A), res(-2, "", { { B, "evil", "both", {} } }), api("ren", false, A, "Ally"), res(-2, own, {}) }, true);
+    // JID reconfigured in mid-session: the sender rule follows the configuration, an answer is expected from the old address
+    runSeq({ conn(0), setjid("me2@example.org/home"), iq("set", own, "p1", { { A, "A", "both", {} } }),
+             iq("set", "me2@example.org/tab", "p2", { { B, "B", "to", {} } }), res(0, "me2@example.org", { { A, "x", "both", {} } }),
+             res(0, own, { { A, "Alice", "both", {} } }), setjid(ownFull), iq("set", "me2@example.org", "p3", { { B, "", "remove", {} } }) }, true);
+
     // ---- exhaustive, roster alphabet ---------------------------------------------------------
     const std::vector<Item> R1 = { { A, "A1", "both", { "g" } } }, R2 = { { B, "B0", "to", {} }, { A, "A0", "none", {} } };
     std::vector<Sym> alphaR = {
@@ -578,12 +660,29 @@ int main(int argc, char **argv)
         pres(A + "/r1", "available", "s1"), pres(A + "/r1", "unavailable", ""), pres(A + "/r2", "available", "s2"),
         pres(A + "/r1", "available", "s3"), pres(B, "available", "s4"), pres(A + "/r2", "error", ""), pres(A + "/r2", "unavailable", "bye"),
     };
+    // ---- exhaustive, forgery / mutator API / reconfiguration alphabet ----------------------------
+    std::vector<Sym> alphaX = {
+        conn(0), simple(Sym::Drop),
+        res(0, "", R1),                                         // the genuine answer (a second one is a replay)
+        res(0, STRANGER, { { B, "evil", "both", {} } }),        // third party, right id
+        res(-2, "", { { B, "evil", "both", {} } }),             // roster payload answering a mutator's set
+        res(-1, own, { { B, "evil", "both", {} } }),            // id never used
+        iq("result", "", "x1", { { B, "evil", "both", {} } }),  // unsolicited roster result "from the server"
+        iq("set", "", "p1", { { A, "A2", "to", {} }, { B, "B1", "from", {} }, { A, "", "remove", {} } }),   // several items
+        api("ren", false, A, "Ally"), api("rm", true, A), api("add", true, B, "Bob", { "g" }),
+        setjid("me2@example.org/home"),
+        iq("set", "me2@example.org", "p8", { { B, "B2", "both", {} } }),
+        iq("set", own + "/other", "p9", { { B, "", "remove", {} } }),
+    };
     int depth = thorough ? 6 : 5;
     if (a.mode == "tiny") depth = 3;
     std::vector<int> cur;
-    long long cR = 0, cP = 0;
+    long long cR = 0, cP = 0, cX = 0;
     enumerate(alphaR, depth, cur, SimState(), cR);
     enumerate(alphaP, depth + 1, cur, SimState(), cP);   // smaller alphabet: one level deeper
+    enumerate(alphaX, depth, cur, SimState(), cX);
+    stat("exhaustive_alphabet_forgery_api", (long long)alphaX.size());
+    stat("exhaustive_legal_sequences_forgery_api", cX);
     stat("exhaustive_depth_roster", depth);
     stat("exhaustive_depth_presence", depth + 1);
     stat("exhaustive_alphabet_roster", (long long)alphaR.size());
@@ -597,7 +696,8 @@ int main(int argc, char **argv)
     const std::vector<std::string> names = { "", "N1", "N2", "n3" };
     const std::vector<std::string> subs = { "-", "none", "both", "from", "to", "remove", "remove", "bogus" };
     const std::vector<std::string> groups = { "g1", "g2", "Z" };
-    std::vector<std::string> froms = { "", "", own, ownFull, own + "/other", own + "/", STRANGER, A, A + "/r1" };
+    std::vector<std::string> froms = { "", "", own, ownFull, own + "/other", own + "/", STRANGER, A, A + "/r1",
+                                       own + "//", own + "/a/b", "@", "me@", "@example.org", "me2@example.org", "me2@example.org/tab" };
     for (auto &l : LOOKALIKES) froms.push_back(l);
     const std::vector<std::string> pfroms = { A + "/r1", A + "/r2", A, B + "/r1", B + "/x/y", own + "/home", "", "/r", "carol@example.org/r1" };
     const std::vector<std::string> ptypes = { "available", "available", "available", "unavailable", "unavailable", "error", "subscribed", "probe", "unsubscribed" };
@@ -626,14 +726,29 @@ int main(int argc, char **argv)
                 else ops.push_back(simple(Sym::Fail));
                 continue;
             }
-            if (r < 12) { ops.push_back(simple(rng.below(4) == 0 ? Sym::Clean : Sym::Drop)); open = false; }
-            else if (r < 30) {
-                int which = rng.below(6) == 0 ? -1 : (rng.below(3) == 0 ? 1 + (int)rng.below(6) : 0);
-                std::string from = rng.below(4) == 0 ? froms[rng.below(froms.size())] : (rng.coin() ? "" : own);
-                if (rng.below(6) == 0) ops.push_back(err(which, from)); else ops.push_back(res(which, from, randItems(4)));
-            } else if (r < 70) {
+            if (r < 10) { ops.push_back(simple(rng.below(4) == 0 ? Sym::Clean : Sym::Drop)); open = false; }
+            else if (r < 28) {
+                int which = rng.below(6) == 0 ? -1 : (rng.below(5) == 0 ? -2 : (rng.below(3) == 0 ? 1 + (int)rng.below(8) : 0));
+                std::string from = rng.below(4) == 0 ? froms[rng.below(froms.size())] : (rng.coin() ? "" : (rng.below(8) == 0 ? "me2@example.org" : own));
+                Sym x = rng.below(6) == 0 ? err(which, from) : res(which, from, randItems(4));
+                x.emptyFromAttr = rng.below(4) == 0; x.noQuery = rng.below(3) == 0; x.ver = rng.below(4) == 0;
+                if (x.emptyFromAttr || x.noQuery || x.ver) stat("wire_variants");
+                ops.push_back(x);
+            } else if (r < 62) {
                 static const char *types[] = { "set", "set", "set", "set", "set", "set", "get", "result", "error" };
-                ops.push_back(iq(types[rng.below(9)], froms[rng.below(froms.size())], rng.below(20) == 0 ? "" : "p" + std::to_string(++pid % 50), randItems(2)));
+                Sym x = iq(types[rng.below(9)], froms[rng.below(froms.size())], rng.below(20) == 0 ? "" : "p" + std::to_string(++pid % 50), randItems(3));
+                x.emptyFromAttr = rng.below(4) == 0; x.ver = rng.below(4) == 0;
+                if (x.emptyFromAttr || x.ver) stat("wire_variants");
+                ops.push_back(x);
+            } else if (r < 72) {
+                static const char *calls[] = { "add", "rm", "ren", "ren", "sub", "unsub", "acc", "ref" };
+                const std::string c = calls[rng.below(8)];
+                std::vector<std::string> gs;
+                for (int g = rng.below(3); g > 0; g--) gs.push_back(groups[rng.below(groups.size())]);
+                ops.push_back(api(c, rng.coin(), jids[rng.below(jids.size())], names[rng.below(names.size())], c == "add" ? gs : std::vector<std::string>()));
+            } else if (r < 75) {
+                static const char *js[] = { "me2@example.org/home", "me@example.org/home", "alice@example.org/x", "example.org", "me@example.org/home" };
+                ops.push_back(setjid(js[rng.below(5)]));
             } else {
                 ops.push_back(pres(pfroms[rng.below(pfroms.size())], ptypes[rng.below(ptypes.size())], rng.coin() ? "" : "st" + std::to_string(rng.below(5))));
             }
